@@ -30,6 +30,7 @@ Record case := mk_case {
   c_target : bytes;               (* import path of the target package *)
   c_types : list tinput;          (* the package's type declarations in the order doGenerate visits them *)
   c_shadow : bool;                (* the harness' copy of the known-finding class import_name_shadows_template_local *)
+  c_iface : bool;                 (* the harness' copy of the known-finding class unnamed_method_interface_rendered_any *)
   c_dom : bool;                   (* inside the generator's domain (exported retained fields, coherent replace, tag text
                                      that a raw string literal can carry, lower-case declared name); outside it nothing is claimed *)
   c_obs : observed
@@ -116,7 +117,8 @@ Definition unmodelled_failure (c : case) : bool :=
 
 Definition mismatch (c : case) : bool :=
   (negb (unmodelled_failure c) && negb (outcome_matches (model_of c) (c_obs c)))
-  || negb (Bool.eqb (shadow_class (c_target c) (c_types c)) (c_shadow c)).
+  || negb (Bool.eqb (shadow_class (c_target c) (c_types c)) (c_shadow c))
+  || negb (Bool.eqb (iface_class (c_types c)) (c_iface c)).
 
 (* ---- the property's own sentence on (input, observed) ---- *)
 
